@@ -18,6 +18,9 @@ struct PElem {
   uint64_t h;        /* what Hash returns (harness-chosen) */
   int64_t token;     /* ledger token, 0 = not a tracked element (stack keys) */
   void* cell;        /* heap memory owned by the element (LSan/ASan see leaks / double frees) */
+  char pad[40];      /* the element is larger than any block a "clever" move might use (64 bytes) ... */
+  int64_t tail;      /* ... and ends in a copy of its token and a second owned block: an internal move that */
+  void* cell2;       /* transfers only part of an element leaves head and tail belonging to different elements */
 };
 
 enum { PE_UNBORN = 0, PE_LIVE = 1, PE_DEAD = 2 };
@@ -50,12 +53,19 @@ static void pe_birth(struct PElem* p) {
   p->token = pe.next++;
   p->cell = malloc(8);
   memcpy(p->cell, &p->token, 8);
+  p->tail = p->token;
+  p->cell2 = malloc(8);
+  memcpy(p->cell2, &p->token, 8);
   pe.state[p->token] = PE_LIVE;
   pe.live++; pe.births++;
 }
 
+static bool pe_is_whole(const struct PElem* p) {
+  return p->tail == p->token && p->cell2 != NULL && memcmp(p->cell2, &p->token, 8) == 0;
+}
+
 static bool pe_is_live(const struct PElem* p) {
-  return p->token > 0 && p->token < pe.next && pe.state[p->token] == PE_LIVE;
+  return p->token > 0 && p->token < pe.next && pe.state[p->token] == PE_LIVE && pe_is_whole(p);
 }
 
 static var PElem;
@@ -81,8 +91,15 @@ static void PElem_Del(var self) {
   }
   pe.state[p->token] = PE_DEAD;
   pe.live--; pe.deaths++;
+  if (p->tail != p->token) {
+    vh_violation(pe_key("element-torn-by-an-internal-move"), "the element with token %" PRId64 " ends in the tail of token %" PRId64 ": a move transferred only part of it", p->token, p->tail);
+    free(p->cell); p->cell = NULL;
+    return;            /* the second block belongs to whoever owns that tail */
+  }
   free(p->cell);
   p->cell = NULL;
+  free(p->cell2);
+  p->cell2 = NULL;
 }
 
 static void PElem_Assign(var self, var obj) {
@@ -90,6 +107,8 @@ static void PElem_Assign(var self, var obj) {
   struct PElem* o = cast(obj, PElem);
   if (p->token == 0 && p->cell == NULL) {
     pe_birth(p);                 /* first assignment into zeroed memory */
+  } else if (p->token > 0 && p->token < pe.next && pe.state[p->token] == PE_LIVE && !pe_is_whole(p)) {
+    vh_violation(pe_key("element-torn-by-an-internal-move"), "assign onto token %" PRId64 " whose tail belongs to token %" PRId64, p->token, p->tail);
   } else if (!pe_is_live(p)) {
     pe.dead_read++;
     vh_violation(pe_key("assignment-into-dead-element"), "assign onto token %" PRId64 " which is not live", p->token);
